@@ -24,7 +24,7 @@ CONSTANTS MaxLen
 VARIABLES st, last, n
 vars == <<st, last, n>>
 
-Init == st = [utt |-> "idle", gram |-> FALSE, fed |-> "none", rc |-> 1] /\ last = <<"init", "", "ok">> /\ n = 0
+Init == st = [utt |-> "idle", gram |-> FALSE, fed |-> "none", rc |-> 1, kept |-> FALSE] /\ last = <<"init", "", "ok">> /\ n = 0
 
 Between == st.utt # "started"
 More(a, b) == IF a = "some" \/ b = "some" THEN "some" ELSE IF a = "tiny" \/ b = "tiny" THEN "tiny" ELSE "none"
@@ -62,24 +62,32 @@ Release == st.rc = 2 /\ Call("release", "", "n", [st EXCEPT !.rc = 1])
 \* the last reference is released IN ANY STATE - in mid-utterance too, with audio fed or not: nothing is called afterwards
 \* (what LeakSanitizer then finds at process exit is what "every allocation has been freed" is about)
 Free == st.rc = 1 /\ Call("free", "", "n", [st EXCEPT !.utt = "freed"])
+\* the caller's own reference to a lattice (lattice_retain): the lattice then outlives the utterance, the grammar, a
+\* re-initialisation and the decoder itself, and stays usable (nodes, links, best path, posteriors) until it is released.
+\* kept = TRUE means "may hold one" (whether there is a lattice at all is the query's nullobj)
+LatKeep == Call("latkeep", "", IF st.gram THEN "nullobj" ELSE "null", [st EXCEPT !.kept = st.gram])
+LatUse == st.kept /\ Call("latuse", "", "nullobj", st)
+LatDrop == st.kept /\ Call("latdrop", "", "nullobj", [st EXCEPT !.kept = FALSE])
 
 FeedKinds == {"tiny", "norm", "f32", "long", "f32long", "zero", "nosearch", "f32nosearch", "full", "full-nosearch"}
 GramKinds == {"jsgf", "align", "fsg", "jsgffile", "bad-syntax", "undefined-rule", "unknown-word", "fsg-unknown-word", "no-public",
               "jsgffile-missing"}
 WordKinds == {"new", "duplicate", "bad-phone", "empty-word", "empty-pron", "alt-without-base"}
 Queries == {<<"hyp", "0">>, <<"segiter", "0">>, <<"segiter", "1">>, <<"segiter", "2">>, <<"nbestiter", "3">>,
-            <<"nbestiter", "1">>, <<"lattice", "0">>, <<"lattice", "1">>, <<"alignwalk", "0">>, <<"alignwalk", "1">>,
+            <<"nbestiter", "1">>, <<"lattice", "0">>, <<"lattice", "1">>, <<"lattice", "2">>, <<"lattice", "3">>, <<"alignwalk", "0">>, <<"alignwalk", "1">>,
             <<"json", "0">>, <<"json", "1">>, <<"json", "2">>}
 
-Next == /\ n < MaxLen /\ n' = n + 1 /\ st.utt # "freed"
-        /\ \/ Start \/ End \/ Free \/ Reinit \/ ReinitFeat \/ Retain \/ Release
-           \/ \E k \in FeedKinds : Feed(k)
-           \/ \E q \in Queries : Query(q[1], q[2])
-           \/ \E k \in GramKinds : SetGram(k)
-           \/ \E k \in WordKinds : AddWord(k)
-           \/ Info("nframes", "", "n") \/ Info("getcmn", "0", "obj") \/ Info("getcmn", "1", "obj") \/ Info("setcmn", "", "ok")
-           \/ Info("setlogfile", "0", "ok") \/ Info("setlogfile", "1", "ok") \/ Info("setlogfile", "2", "err") \/ Info("prob", "", "ok")
-           \/ Info("lookup", "0", "obj") \/ Info("lookup", "1", "null") \/ Info("lookup", "2", "null") \/ Info("config", "", "obj")
+Alive == \/ Start \/ End \/ Free \/ LatKeep \/ Reinit \/ ReinitFeat \/ Retain \/ Release
+         \/ \E k \in FeedKinds : Feed(k)
+         \/ \E q \in Queries : Query(q[1], q[2])
+         \/ \E k \in GramKinds : SetGram(k)
+         \/ \E k \in WordKinds : AddWord(k)
+         \/ Info("nframes", "", "n") \/ Info("getcmn", "0", "obj") \/ Info("getcmn", "1", "obj") \/ Info("setcmn", "", "ok")
+         \/ Info("setlogfile", "0", "ok") \/ Info("setlogfile", "1", "ok") \/ Info("setlogfile", "2", "err") \/ Info("prob", "", "ok")
+         \/ Info("lookup", "0", "obj") \/ Info("lookup", "1", "null") \/ Info("lookup", "2", "null") \/ Info("config", "", "obj")
+Next == /\ n < MaxLen /\ n' = n + 1
+        /\ \/ LatUse \/ LatDrop
+           \/ st.utt # "freed" /\ Alive
 Spec == Init /\ [][Next]_vars
 
 TypeOK == st.utt \in {"idle", "started", "ended", "freed"} /\ st.rc \in 1..2
